@@ -1810,7 +1810,10 @@ def ignore_comments(string):
 
                 if multi_line_comment_depth == 0:
                     offset += 2
-                    chunks.append(' ' * (offset - start_offset))
+                    # Keep the newlines for correct line numbers.
+                    chunks.append(re.sub(r'[^\n]',
+                                         ' ',
+                                         string[start_offset:offset]))
                     non_comment_offset = offset
         elif kind == '--':
             in_single_line_comment = True
